@@ -98,6 +98,15 @@ pub fn all_gets(m: &PackageMetadata) -> Vec<Value> {
     out.push(json!({"acc":"get_changelog_entries","res":res(guarded(|| m.get_changelog_entries()), |v| {
         Value::Array(v.iter().map(|c| json!({"a": b(&c.name), "b": u32d(c.timestamp as u32), "c": b(&c.description)})).collect())
     })}));
+    out.push(json!({"acc":"get_file_entries","res":res(guarded(|| m.get_file_entries()), |v| {
+        Value::Array(v.iter().map(|e| json!({
+            "path": b(&e.path.to_string_lossy()), "user": b(&e.ownership.user), "group": b(&e.ownership.group),
+            "mode": e.mode.raw_mode(), "mtime": u32d(e.modified_at.0), "size": u64d(e.size as u64), "flags": u32d(e.flags.bits()),
+            "linkto": b(&e.linkto),
+            "digest": match &e.digest { Some(d) => json!({"some": d.as_hex().as_bytes()}), None => json!({"none": true}) },
+            "caps": match &e.caps { Some(c) => json!({"some": c.as_bytes()}), None => json!({"none": true}) },
+        })).collect())
+    })}));
     out.push(json!({"acc":"get_file_paths","res":res(guarded(|| m.get_file_paths()), |v| {
         Value::Array(v.iter().map(|p| b(&p.to_string_lossy())).collect())
     })}));
